@@ -578,6 +578,10 @@ pub struct C13Scenario {
     /// that is killed is the first one under the new limit
     #[serde(default)]
     pub retained_after_prefix: Option<usize>,
+    /// this many runs in a row are killed (while their children execute) before the run whose crash points
+    /// are enumerated: the store then holds unfinished slots next to the last completed run
+    #[serde(default)]
+    pub killed_before: usize,
 }
 
 #[derive(Serialize, Deserialize, Clone, Debug, PartialEq)]
@@ -621,6 +625,8 @@ fn gen_c13(seed: u64, idx: usize, tier: Tier) -> C13Scenario {
         max_points: if tier == Tier::Thorough { 0 } else { 10 },
         only_points: vec![],
         retained_after_prefix,
+        // one history in four: 1..max earlier runs were killed too
+        killed_before: if rng.chance(1, 4) { rng.range(1, max.min(4)) } else { 0 },
     }
 }
 
@@ -727,6 +733,29 @@ impl Property for C13 {
             }
             out.fault("retention_limit_changed_before_the_killed_run", 1);
             out.trace.push(format!("max_retained_runs {} -> {}", sc.spec.max_retained_runs, m));
+        }
+        if sc.killed_before > 0 {
+            let before = snapshot(&w);
+            for k in 0..sc.killed_before {
+                let mut ks = step_script(&sc.crash_run, sc.rand_seed + 30 + k as u64);
+                if ks.opts.targets.is_empty() && sc.checkpoint {
+                    ks.opts.targets = sc.spec.targets.iter().map(|t| t.path.clone()).collect();
+                }
+                ks.kill = Some(Kill::AtPoint { name: "run.group.spawned".into(), nth: 1 });
+                let tr = drive_run(&mut w, "M0", &ks, hang);
+                let died = tr.exit.as_ref().map(|e| e.signal == Some(9)).unwrap_or(false);
+                if !died {
+                    return Outcome::skip("earlier_killed_run_not_killed(harness)");
+                }
+                out.fault("earlier_run_killed_while_its_children_ran", 1);
+                out.sub_evals += 1;
+                let after = snapshot(&w);
+                if after.result != before.result || after.logs != before.logs || after.checkpoint != before.checkpoint {
+                    out.violate("result_after_crash", "after_several_killed_runs", format!("after {} killed run(s) in a row the recorded state changed: result {:?} -> {:?}", k + 1, short(&before.result), short(&after.result)));
+                    return out;
+                }
+            }
+            out.trace.push(format!("{} earlier run(s) killed at run.group.spawned", sc.killed_before));
         }
         let backup = w.root.join(".backup-out");
         let _ = std::fs::remove_dir_all(&backup);
@@ -910,6 +939,11 @@ impl Property for C13 {
                 s.retained_after_prefix = None;
                 outv.push(serde_json::to_value(s).unwrap());
             }
+            if sc.killed_before > 0 {
+                let mut s = sc.clone();
+                s.killed_before -= 1;
+                outv.push(serde_json::to_value(s).unwrap());
+            }
             if sc.crash_run.behav.iter().any(|b| !b.outs.is_empty() || b.code != 0) {
                 let mut s = sc.clone();
                 for b in s.crash_run.behav.iter_mut() {
@@ -922,7 +956,7 @@ impl Property for C13 {
         outv
     }
     fn rule(&self) -> String {
-        "history prefix of 0-3 completed runs and an optional checkpoint (max_retained_runs >= 2; one history in five has 1-6 runs under one limit and rewrites max_retained_runs - lowered or raised - before the run that is killed); a recording pass lists every filesystem effect of the run to be killed (LD_PRELOAD shim), every parked point and every controller decision step; the run is then re-executed from the restored state and killed before / after each effect, after half of each write (torn), at each parked point and between helper steps (quick: seeded sample of 10 points per scenario always including effects on the pointer and result files; thorough: every point). Oracle: result show / log show / checkpoint show unchanged (or the killed run's own complete record once the pointer update has completed), next run succeeds and becomes the latest within max slots. Non-trivial = state existed to be damaged (a completed run or a checkpoint) and at least one crash was executed; distinct = (targets, prefix length, crash-run options, checkpoint)".into()
+        "history prefix of 0-3 completed runs and an optional checkpoint (max_retained_runs >= 2; one history in five has 1-6 runs under one limit and rewrites max_retained_runs - lowered or raised - before the run that is killed; one history in four has 1-4 earlier runs killed in a row while their children ran, each followed by the same comparison); a recording pass lists every filesystem effect of the run to be killed (LD_PRELOAD shim), every parked point and every controller decision step; the run is then re-executed from the restored state and killed before / after each effect, after half of each write (torn), at each parked point and between helper steps (quick: seeded sample of 10 points per scenario always including effects on the pointer and result files; thorough: every point). Oracle: result show / log show / checkpoint show unchanged (or the killed run's own complete record once the pointer update has completed), next run succeeds and becomes the latest within max slots. Non-trivial = state existed to be damaged (a completed run or a checkpoint) and at least one crash was executed; distinct = (targets, prefix length, crash-run options, checkpoint)".into()
     }
     fn components(&self) -> Value {
         components()
